@@ -1,1 +1,19 @@
-From C02 Require Import Model Proofs.
+(* C02 — property theorems. Statements only, each closed by `exact <lemma>`; Print Assumptions beneath;
+   non-vacuity examples. *)
+From Coq Require Import List NArith Sorting.Sorted.
+From C02 Require Import Model ProofsNodes.
+Import ListNotations.
+Open Scope N_scope.
+
+(* thm:C02_nodes_sound — every tree of merge nodes (AND, OR with dedup, NAND, NOT over the LID range) over
+   strictly ascending posting lists, drained in either direction, terminates (the range node's fuel is
+   adequate), yields a strictly `less`-monotone list, and that list holds exactly the values of the tree's
+   set denotation: AND = intersection, OR = union, NAND = regular minus negative, NOT = [lo..hi] minus child.
+   wf_ntree: static lists strictly ascending; NOT borders lo < 2^32, hi+1 < 2^32 and, when walking
+   downwards, lo >= 1 (getLIDsBorders guarantees this: C02_borders_wf). *)
+Theorem C02_nodes_sound :
+  forall rev t, wf_ntree rev t ->
+    exists out, eval_ntree rev t = Ok out /\ StronglySorted (fun a b => less rev a b = true) out /\
+                (forall x, In x out <-> nsem t x = true).
+Proof. exact nodes_sound. Qed.
+Print Assumptions C02_nodes_sound.
